@@ -19,20 +19,20 @@ from ..ref import ref_basis, ref_conv
 ID = "C01"
 SF_KINDS = ["F2", "FL", "F3", "g1", "gL", "g4"]
 PROCS = ["EM", "NC", "CC"]
-RTOL = 5e-6
+RTOL = {0: 1e-12, 1: 5e-7, 2: 2e-6, 3: 2e-5}  # per perturbative order (measured maxima: 1e-14, 3.7e-8 (G9, x~1e-5), 2.5e-7, 3.6e-6)
 ERRFAC = 20.0
 
 RULE = (
     "states = (kind, heavyness, process, scheme, PTO, grid, Q2, x) over fully crossed named slices; x from the kinematic lattice K(G) "
     "(nodes, block mid-points, node(1±1e-9), xmin(1+1e-9), 0.999, 1); per state one real compute_local() and the reference convolution of every "
-    "kernel x order x basis function; oracle |O-O_ref| <= 5e-6*scale + 20*(err_yadism+err_ref) on all (k,0,0,0) keys, plus the span check with a "
+    "kernel x order x basis function; oracle |O-O_ref| <= rtol_k*scale + 20*(err_yadism+err_ref) on all (k,0,0,0) keys with rtol_k = 1e-12, 5e-7, 2e-6, 2e-5 for k = 0..3, plus the span check with a "
     "degree<=deg polynomial in ln x (or x); non-trivial = the operator has a non-zero entry from a kernel with a regular or singular part (not only a delta)"
 )
 ASSUMPTIONS = [
     "reg, sing and the delta coefficient loc(0+) of each kernel are taken from the kernel objects (their mutual consistency is C03, their content C04); parton weights are taken from the kernel list (C02, C12, C13)",
     "integration borders follow the documented convention [x(1+1e-10), zmax(1-1e-10)]; x = 1 must return exactly 0 (documented border)",
     "scale-variation keys are C05's business: runs use RenScaleVar=FactScaleVar=False, only (k,0,0,0) keys are compared",
-    "tolerance 5e-6 relative to the sum of absolute pieces: 6-digit printed constants of parametrised NNLO/N3LO kernels times large logs near x->1",
+    "per-order tolerance relative to the sum of absolute pieces (plus the largest entry of the tensor): 1e-12 (LO, pure interpolation), 5e-7 (NLO, analytic kernels), 2e-6 (NNLO) and 2e-5 (N3LO): 6-digit printed constants of the parametrised kernels times large logs near x->1; measured maxima 1e-14, 3.7e-8, 2.5e-7, 3.6e-6",
     "cells that C16 classifies as rejected or known-finding (polarised CC, N3LO massive NaN, g1 PTO3) are excluded by the same rules",
 ]
 BUDGET = {"quick": 1500, "thorough": 10000}
@@ -74,6 +74,22 @@ def slices(tier):
             _mk(k, h, p, sc, pto, "G6", q2, xl, x, "A")
             for k, h, p, sc, pto, q2 in itertools.product(SF_KINDS, ["light", "total", "charm"], PROCS, ["ZM-VFNS", "FFNS3"], [0, 1], [4.0, 30.0])
             for xl, x in _xl("G6", "8")
+        ]
+        s["A_pto01_G9L7"] = [
+            _mk(k, h, p, sc, pto, g, 30.0, xl, x, "A2")
+            for g in ("G9", "L7")
+            for k, h, p, sc, pto in itertools.product(SF_KINDS, ["light", "total", "charm"], PROCS, ["ZM-VFNS", "FFNS3"], [0, 1])
+            for xl, x in _xl(g, "4")
+        ]
+        s["B_pto2_G6"] = [
+            _mk(k, h, p, sc, 2, "G6", 30.0, xl, x, "B2")
+            for k, h, p, sc in itertools.product(SF_KINDS, ["light", "total"], PROCS, ["ZM-VFNS", "FFNS3"])
+            for xl, x in _xl("G6", "3")
+        ]
+        s["B_pto3_light_G6"] = [
+            _mk(k, "light", p, "ZM-VFNS", 3, "G6", 30.0, xl, x, "B3")
+            for k, p in itertools.product(SF_KINDS, PROCS)
+            for xl, x in _xl("G6", "3")
         ]
         s["B_pto2_light_G6"] = [
             _mk(k, "light", p, "ZM-VFNS", 2, "G6", 30.0, xl, x, "B")
@@ -206,6 +222,7 @@ def execute(st):
             span_pred[o] += w * xc * v
             span_scale[o] += np.abs(w) * xc * abs(v)
     viol = []
+    per_order = {}
     maxrel = 0.0
     maxrel_span = 0.0
     nonzero = False
@@ -226,11 +243,12 @@ def execute(st):
                 viol.append({"fp": dict(fp, cls="x1-nonzero", order=o), "msg": f"{name} at x=1 returns a non-zero operator at order {o} (documented border: exactly 0)"})
             continue
         sc = scale[o] + np.abs(val)
-        tol = RTOL * (sc + sc.max()) + ERRFAC * (err + rerr[o]) + 1e-300
+        tol = RTOL[o] * (sc + sc.max()) + ERRFAC * (err + rerr[o]) + 1e-300
         dlt = np.abs(val - pred[o])
         with np.errstate(divide="ignore", invalid="ignore"):
             rr = np.where(sc + sc.max() > 0, dlt / (sc + sc.max()), 0.0)
         maxrel = max(maxrel, float(rr.max()))
+        per_order[f"maxrel_order{o}"] = float(rr.max())
         if np.any(dlt > tol):
             idx = np.unravel_index(np.argmax(dlt - tol), dlt.shape)
             viol.append({
@@ -242,7 +260,7 @@ def execute(st):
         # span oracle
         contr = val @ fvals
         ssc = span_scale[o] + np.abs(val) @ np.abs(fvals)
-        stol = RTOL * (ssc + ssc.max()) + ERRFAC * (err @ np.abs(fvals)) + 1e-300
+        stol = RTOL[o] * (ssc + ssc.max()) + ERRFAC * (err @ np.abs(fvals)) + 1e-300
         sd = np.abs(contr - span_pred[o])
         with np.errstate(divide="ignore", invalid="ignore"):
             rs = np.where(ssc + ssc.max() > 0, sd / (ssc + ssc.max()), 0.0)
@@ -260,7 +278,7 @@ def execute(st):
         "outcome": yrun.res_digest(res),
         "transitions": 1 + nk,
         "sub": 1,
-        "info": {"maxrel": maxrel, "maxrel_span": maxrel_span, "n_kernel_orders": nk},
+        "info": dict(per_order, maxrel=maxrel, maxrel_span=maxrel_span, n_kernel_orders=nk),
     }
 
 
